@@ -41,4 +41,105 @@ theorem wr_of_lt {a : Array Elem} {i : Nat} {v : Elem} (h : i < a.size) :
     wr a i v = .ok (a.setIfInBounds i v) := by
   simp [wr, h]
 
+
+theorem size_of_wr {a a' : Array Elem} {i : Nat} {v : Elem} (h : wr a i v = .ok a') :
+    a'.size = a.size := by
+  obtain ⟨_, rfl⟩ := wr_eq_ok.mp h
+  simp
+
+/-! ### keys by index (total accessor used by all order invariants) -/
+
+/-- key at index `i`; `0` outside the array (never relied upon) -/
+def K (a : Array Elem) (i : Nat) : Int := (a.getD i (0, 0)).1
+
+theorem K_set {a : Array Elem} {i : Nat} {v : Elem} (h : i < a.size) (p : Nat) :
+    K (a.setIfInBounds i v) p = if p = i then v.1 else K a p := by
+  unfold K
+  by_cases hp : p = i
+  · subst hp; simp [h]
+  · simp [hp, Array.getD_eq_getD_getElem?, Ne.symm hp]
+
+theorem K_getElem {a : Array Elem} {i : Nat} (h : i < a.size) : a[i].1 = K a i := by
+  simp [K, h]
+
+theorem K_of_getElem? {a : Array Elem} {i : Nat} {x : Elem} (h : a[i]? = some x) : K a i = x.1 := by
+  simp [K, Array.getD_eq_getD_getElem?, h]
+
+theorem K_push {a : Array Elem} {x : Elem} (p : Nat) :
+    K (a.push x) p = if p = a.size then x.1 else K a p := by
+  unfold K
+  simp only [Array.getD_eq_getD_getElem?, Array.getElem?_push]
+  by_cases hp : p = a.size <;> simp [hp]
+
+theorem K_pop {a : Array Elem} {p : Nat} (h : p + 1 < a.size) : K a.pop p = K a p := by
+  unfold K
+  simp only [Array.getD_eq_getD_getElem?, Array.getElem?_pop]
+  simp [show p < a.size - 1 by omega]
+
+/-- keys non-decreasing on the index range `[lo, hi)` -/
+def SortedOn (a : Array Elem) (lo hi : Nat) : Prop :=
+  ∀ p q, lo ≤ p → p < q → q < hi → K a p ≤ K a q
+
+/-- keys non-decreasing (the specification's `Sorted`) -/
+def Sorted (l : List Elem) : Prop := l.Pairwise (fun x y => x.1 ≤ y.1)
+
+theorem sorted_of_sortedOn {a : Array Elem} (h : SortedOn a 0 a.size) : Sorted a.toList := by
+  unfold Sorted
+  rw [List.pairwise_iff_getElem]
+  intro i j hi hj hij
+  have := h i j (Nat.zero_le _) hij (by simpa using hj)
+  simp only [Array.length_toList] at hi hj
+  rw [← K_getElem hi, ← K_getElem hj] at this
+  simpa using this
+
+theorem sortedOn_of_sorted {a : Array Elem} (h : Sorted a.toList) : SortedOn a 0 a.size := by
+  unfold Sorted at h
+  rw [List.pairwise_iff_getElem] at h
+  intro p q _ hpq hq
+  have := h p q (by simp; omega) (by simpa using hq) hpq
+  rw [← K_getElem (show p < a.size by omega), ← K_getElem hq]
+  simpa using this
+
+theorem sortedOn_mono {a : Array Elem} {lo hi lo' hi' : Nat} (h : SortedOn a lo hi)
+    (h1 : lo ≤ lo') (h2 : hi' ≤ hi) : SortedOn a lo' hi' :=
+  fun p q a1 a2 a3 => h p q (by omega) a2 (by omega)
+
+/-! ### the "hole" technique: moving `a[k]` into the hole `h` is a swap on the virtual
+array `a.set h x` (the array with the held element put into the hole) -/
+
+theorem hole_perm {a : Array Elem} {h k : Nat} {x : Elem} (hh : h < a.size) (hk : k < a.size)
+    (hne : h ≠ k) :
+    ((a.setIfInBounds h a[k]).setIfInBounds k x).Perm (a.setIfInBounds h x) := by
+  have : ((a.setIfInBounds h a[k]).setIfInBounds k x) =
+      ((a.setIfInBounds h x).swap h k (by simp; omega) (by simp; omega)) := by
+    apply Array.ext_getElem?
+    intro i
+    simp [Array.getElem?_swap, Array.getElem?_setIfInBounds]
+    grind
+  rw [this]
+  exact Array.swap_perm _ _
+
+theorem set_self_eq {a : Array Elem} {i : Nat} (h : i < a.size) : a.setIfInBounds i a[i] = a := by
+  apply Array.ext_getElem?
+  intro j
+  rw [Array.getElem?_setIfInBounds]
+  split
+  · subst_vars; simp [h]
+  · rfl
+
+/-- `swp` is `Array.swap` -/
+theorem swp_eq_ok {a : Array Elem} {i j : Nat} (hi : i < a.size) (hj : j < a.size) :
+    swp a i j = .ok ((a.setIfInBounds i a[j]).setIfInBounds j a[i]) := by
+  simp only [swp, rd_of_lt hi, rd_of_lt hj, bind, Except.bind, wr_of_lt hi]
+  rw [wr_of_lt (by simpa using hj)]
+
+theorem swp_perm {a : Array Elem} {i j : Nat} (hi : i < a.size) (hj : j < a.size) :
+    ((a.setIfInBounds i a[j]).setIfInBounds j a[i]).Perm a := by
+  by_cases h : i = j
+  · subst h
+    simp [set_self_eq hi]
+  · have := hole_perm (x := a[i]) hi hj h
+    rw [set_self_eq hi] at this
+    exact this
+
 end MgProof.C10
